@@ -53,8 +53,9 @@ CLAIMED = {
         'fires only after its inputs, with exactly its formula\'s value.',
         'Trusted: TLC; the generator\'s geometry resolution (ranges as id '
         'matrices) and spelling; the small function set of Workbook.tla '
-        '(SUM, COUNT, MAX, IF, IFERROR, ISERROR). Whole-column references '
-        '(SUM(A:A)) only in a small separate family of workbooks (6 quick / 30 '
+        '(SUM, COUNT, MAX, MIN, IF, IFERROR, ISERROR). Whole-column references '
+        '(SUM(A:A), also over a column that holds an array-formula block) only '
+        'in a small separate family of workbooks (6 quick / 30 '
         'thorough, dict and file paths): each costs seconds and gigabytes in '
         'this library.',
         'DESIGN.md 4/C03'),
@@ -144,7 +145,9 @@ CLAIMED = {
         'also observed without any expected value: 400 (quick) sequences of '
         '2-4 calculations with supplied cells / unpopulated range members / '
         'whole sparse ranges run on one model, and the last calculation must '
-        'give the same solution on a fresh model (harness/hdjob.py). Directed '
+        'give the same solution on a fresh model (harness/hdjob.py); the '
+        'history also holds compilations, and inputs are also supplied through '
+        'defined names. Directed '
         'workbooks: an array-formula block wholly inside a larger referenced '
         'range, values supplied through that range or its name.',
         'Trusted: TLC; the generator and the concretisation of override sets; '
@@ -227,7 +230,11 @@ CLAIMED = {
         'and the hash seeds, with a watchdog; every cell is compared with '
         'its expectation class (ordinary value exact, #CIRC! on unavoidable '
         'cycles, any error downstream), and the outcomes of one workbook must '
-        'be identical under every hash seed and load path.',
+        'be identical under every hash seed and load path. A cell marked '
+        'although evaluation by need gives it a value is attributed to the '
+        'recorded static-cut finding only when some guard in the cell\'s '
+        'component is selected towards the cycle (then the place of the cut '
+        'matters); otherwise it is a violation.',
         'Trusted: TLC; the generator. The static cut analysis of the code is '
         'not transcribed; its systematic deviations from evaluation by need '
         '(and the order-dependent placement of the mark on an unavoidable '
@@ -387,7 +394,9 @@ CLAIMED = {
         'product (well-formedness, left-most error, one total order, uniform '
         'coercion) and emits every table entry; each entry is replayed on the '
         'real operators through two spellings (parsed literals, referenced '
-        'cells). Seeded random decimal/text/logical/blank operands are run '
+        'cells). OperandsKept (action property: the step leaves its operands '
+        'unchanged) is replayed too: the compiled operator is called on Ranges '
+        'holding the operands and these are read again afterwards. Seeded random decimal/text/logical/blank operands are run '
         'through the real code and every recorded event must be a behaviour '
         'of the spec (XlOpsTrace.tla). Exhaustive over the stated pool; '
         'numeric closeness of transcendental results is not decided.',
@@ -470,7 +479,11 @@ CLAIMED = {
         'an obligation evaluated by Cell with the referenced ranges supplied '
         'as inputs and compared with the defined value (numbers to 1e-9; '
         'irrational results against double-precision evaluation of the exact '
-        'arguments the specification names). Bounded by the pools.',
+        'arguments the specification names). Bounded by the pools. Functions '
+        'outside the list (FnDef: MAXA .. MROUND; FnMore.tla: percentiles, '
+        'quartiles, CEILING.MATH .. ISO.CEILING, FACTDOUBLE, MMULT, MDETERM, '
+        'MUNIT, TRANSPOSE with their own laws) are model-checked and replayed '
+        'for information only.',
         'Trusted: TLC; FnDef.tla as the statement of Excel\'s definitions '
         '(points where Excel itself is not settled are classes: which of two '
         'errors wins, FIND of the empty text just past the end, FLOOR(0,0)); '
